@@ -448,6 +448,40 @@ Theorem C14_reserved_word_parameter_refuted :
 Proof. exact reserved_word_parameter_refuted. Qed.
 Print Assumptions C14_reserved_word_parameter_refuted.
 
+(* independent review, 2026-10-02 — four more behaviours of accepted / rejected scripts that contradict the property text, each
+   reproduced on the pinned tree (known_findings.d/C14.json) and in the model: *)
+(* (1) duplicate detection is sensitive to blanks around "=": the same statement twice is accepted, re-spacing ONE copy from
+   `Y = X` to `Y=X` makes the script a "defined twice" ParserError (the normaliser collapses runs, it never inserts / removes a blank) *)
+Theorem C14_duplicate_statement_respaced_refuted :
+  view_of (parse_model_nocheck ("Y = X" ++ nl_s ++ "Y = X")) = Some [(Some "Y", TEndogenous, Some "Y[t] = X[t]", Some "self._Y[t] = self._X[t]"); (Some "X", TExogenous, None, None)] /\
+  view_of (parse_model_nocheck ("Y = X" ++ nl_s ++ "Y  =  X")) = view_of (parse_model_nocheck ("Y = X" ++ nl_s ++ "Y = X")) /\
+  parse_model_nocheck ("Y = X" ++ nl_s ++ "Y=X") = PErr ParserError /\
+  view_of (parse_model_nocheck "Y=X") = Some [(Some "Y", TEndogenous, Some "Y[t]=X[t]", Some "self._Y[t]=self._X[t]"); (Some "X", TExogenous, None, None)].
+Proof. exact duplicate_statement_respaced_refuted. Qed.
+Print Assumptions C14_duplicate_statement_respaced_refuted.
+(* (2) literal braces `{{ }}` (str.format's escape) are accepted; the normal form holds single braces and is rejected when fed back:
+   this is what the guard `nobrace` of dq_ok excludes besides parameters written outside a term *)
+Theorem C14_literal_braces_refuted :
+  view_of (parse_model_nocheck "Y = X + max({{1, 2}})")
+  = Some [(Some "Y", TEndogenous, Some "Y[t] = X[t] + max({1, 2})", Some "self._Y[t] = self._X[t] + max({1, 2})"); (Some "X", TExogenous, None, None); (Some "max", TFunction, None, None)] /\
+  parse_equation_M "Y[0] = X[0] + max({1, 2})" = PErr ParserError.
+Proof. exact literal_braces_refuted. Qed.
+Print Assumptions C14_literal_braces_refuted.
+(* (3) a blank before the index bracket of the LEFT-hand side: rejected (sibling of #20 / #22) *)
+Theorem C14_space_before_lhs_index_refuted :
+  parse_model_nocheck "Y [1] = X" = PErr ParserError /\
+  view_of (parse_model_nocheck "Y[1] = X") = Some [(Some "Y", TEndogenous, Some "Y[t+1] = X[t]", Some "self._Y[t+1] = self._X[t]"); (Some "X", TExogenous, None, None)].
+Proof. exact space_before_lhs_index_refuted. Qed.
+Print Assumptions C14_space_before_lhs_index_refuted.
+(* (4) "#" inside a quoted period label (likewise inside a backticked fragment or a fenced block) is cut as a comment: this is what
+   the hypothesis `has_char "#" … = false` of the comment / statement theorems excludes *)
+Theorem C14_hash_in_quotes_refuted :
+  view_of (parse_model_nocheck "Y = X['a#b']")
+  = Some [(Some "Y", TEndogenous, Some "Y[t] = X[t]['a[t]", Some "self._Y[t] = self._X[t]['self._a[t]"); (Some "X", TExogenous, None, None); (Some "a", TExogenous, None, None)] /\
+  view_of (parse_model_nocheck "Y = X['a_b']") = Some [(Some "Y", TEndogenous, Some "Y[t] = X['a_b']", Some "self._Y[t] = self['X', 'a_b']"); (Some "X", TExogenous, None, None)].
+Proof. exact hash_in_quotes_refuted. Qed.
+Print Assumptions C14_hash_in_quotes_refuted.
+
 (* fix 85765d5 at work: the script with the open fence is rejected alone and with a statement appended; closing the fence
    makes it an accepted block again, after which the appended statement is parsed as usual *)
 Theorem C14_unclosed_fence_instance :
